@@ -680,6 +680,89 @@ def oracle_wrapper(ctx, rng, n_random, budget=1):
     return found, checked, changed_winner
 
 
+K_BFIT = 'Bivariate.check_fit:fitted-model-reported-unfitted'
+
+
+def permutation_sample(n, surplus):
+    """n tie-free points with (concordant - discordant) = surplus: a permutation with a prescribed number of
+    inversions, from its Lehmer code (deterministic)."""
+    pairs = n * (n - 1) // 2
+    left = (pairs - surplus) // 2
+    remaining = list(range(n))
+    perm = []
+    for i in range(n):
+        code = min(n - 1 - i, left)
+        left -= code
+        perm.append(remaining.pop(code))
+        if not left:
+            perm.extend(remaining)
+            break
+    return np.column_stack([(np.arange(n) + 0.5) / n, (np.array(perm) + 0.5) / n])
+
+
+def check_fitted_answers(ctx):
+    """the converse of `unfitted raises`: a bivariate copula that fit() accepted (or that carries a valid parameter
+    set directly / through from_dict) is FITTED: no query entry point may raise NotFittedError."""
+    from copulas.bivariate import Bivariate, Clayton, Frank, Gumbel
+    X = np.array([[0.2, 0.3], [0.5, 0.6], [0.9, 0.1]])
+    queries = {
+        'probability_density': lambda m: m.probability_density(X), 'pdf': lambda m: m.pdf(X),
+        'log_probability_density': lambda m: m.log_probability_density(X),
+        'cumulative_distribution': lambda m: m.cumulative_distribution(X), 'cdf': lambda m: m.cdf(X),
+        'partial_derivative': lambda m: m.partial_derivative(X),
+        'partial_derivative_scalar': lambda m: m.partial_derivative_scalar(0.2, 0.3),
+        'percent_point': lambda m: m.percent_point(X[:, 0], X[:, 1]), 'ppf': lambda m: m.ppf(X[:, 0], X[:, 1]),
+        'generator': lambda m: m.generator(X[:, 0]), 'sample': lambda m: m.sample(3), 'check_fit': lambda m: m.check_fit(),
+    }
+    models = []
+    data = {2: permutation_sample(10000, 2), 4: permutation_sample(10000, 4), 1200000: permutation_sample(10000, 1200000)}
+    for fam in (Clayton, Frank, Gumbel):
+        for surplus, D in data.items():
+            m = fam()
+            try:
+                _quiet(m.fit, D)
+            except Exception as e:  # noqa
+                ctx.count(f'fitted-answers:fit-raised:{fam.__name__}:{type(e).__name__}')
+                continue
+            models.append((f'{fam.__name__}().fit(permutation_sample(10000, surplus={surplus}))', m,
+                           {'family': fam.__name__, 'how': 'fit', 'n': 10000, 'concordant_minus_discordant': surplus}))
+    for fam, thetas in ((Clayton, (1e-8, 5e-8, 1e-7, 3e-7)), (Frank, (1e-8, -1e-8, 1e-7, -1e-7)), (Gumbel, (1.0 + 1e-8, 1.0 + 1e-7))):
+        for th in thetas:
+            m = fam()
+            m.theta, m.tau = th, 1e-8
+            models.append((f'{fam.__name__}(); theta = {th!r}', m, {'family': fam.__name__, 'how': 'theta set directly', 'theta': th}))
+            m2 = Bivariate.from_dict({'copula_type': fam.copula_type.name, 'theta': th, 'tau': 1e-8})
+            models.append((f'{fam.__name__}.from_dict(theta={th!r})', m2, {'family': fam.__name__, 'how': 'from_dict', 'theta': th}))
+    bad = None
+    for label, m, inp in models:
+        try:
+            m.check_theta()
+        except Exception:  # noqa
+            ctx.count('fitted-answers:invalid-theta-skipped')
+            continue
+        if not m.theta:
+            ctx.count('fitted-answers:theta-zero-skipped')       # C10's finding (Clayton accepts tau = 0), not this one
+            continue
+        unfit = []
+        for q, f in queries.items():
+            try:
+                _quiet(f, m)
+                ctx.count('fitted-answers:answered')
+            except Exception as e:  # noqa
+                if type(e).__name__ == 'NotFittedError':
+                    unfit.append(q)
+                else:
+                    ctx.count('fitted-answers:other-error:' + type(e).__name__)
+        ctx.case(('fitted-answers', label))
+        if unfit:
+            ctx.fail_input(f'{inp["family"]}.check_fit', dict(inp, model=label, theta=float(m.theta), tau=float(m.tau)),
+                           {'NotFittedError_from': unfit},
+                           'only unfitted models raise NotFittedError: a copula whose fit() succeeded (or that carries a valid '
+                           'parameter) answers every query', K_BFIT)
+            bad = bad or {'model': label, 'theta': float(m.theta), 'NotFittedError_from': unfit}
+    ctx.ob('oracle:fitted-bivariate-answers', bad is None, 'tie', bad or 'ok')
+
+
 K_FBK = 'GaussianMultivariate.fit:fallback-remembered-across-refit'
 K_MUT = 'GaussianMultivariate.fit:mutates-user-distribution-argument'
 K_SSS = 'Univariate.fit:selection-depends-on-global-rng-at-boundary'
@@ -1534,6 +1617,14 @@ def prototypes():
     return [p if len(p) == 4 else p + (None,) for p in ps]
 
 
+def _args_record(rec):
+    """canonical form of a prototype's (__args__, __kwargs__): a record that is not a tuple / dict (an iterator that
+    cloning would consume) is told apart from one that is."""
+    a, k = rec
+    return (type(a).__name__, canon(list(a)) if isinstance(a, tuple) else None, type(k).__name__,
+            canon(k) if isinstance(k, dict) else None)
+
+
 def check_get_instance(ctx, lean):
     name = 'corr:get_instance'
     if lean is None:
@@ -1585,6 +1676,9 @@ def check_get_instance(ctx, lean):
                   f'{len(kwtoks)} {" ".join(a + " " + b for a, b in kwtoks)}'
             pred = lean.ask(' '.join(req.split()))
             arg = fqn if form == 'name' else cls if form == 'class' else proto
+            proto_rec_before = (getattr(proto, '__args__', None), getattr(proto, '__kwargs__', None))
+            proto_rec_before = (proto_rec_before[0] if not isinstance(proto_rec_before[0], tuple) else tuple(proto_rec_before[0]),
+                                copy.deepcopy(proto_rec_before[1]) if isinstance(proto_rec_before[1], dict) else proto_rec_before[1])
             try:
                 with warnings.catch_warnings():
                     warnings.simplefilter('ignore')
@@ -1635,6 +1729,34 @@ def check_get_instance(ctx, lean):
                 with warnings.catch_warnings():
                     warnings.simplefilter('ignore')
                     like = cls(*copy.deepcopy(pos), **copy.deepcopy(kw))
+                # clone the SAME prototype again (and again): every clone is a new unfitted object with the prototype's
+                # configuration, and the prototype's own record of its arguments is untouched
+                rec0 = _args_record(proto_rec_before)
+                views = [config_view(g)]
+                for nth in (2, 3):
+                    try:
+                        with warnings.catch_warnings():
+                            warnings.simplefilter('ignore')
+                            gn = get_instance(proto)
+                        probs = (['class'] if type(gn) is not cls else []) + (['same-object'] if gn is proto or gn is g else []) + \
+                            (['fit-state:' + ','.join(fresh_state(gn))] if fresh_state(gn) else []) + \
+                            ([] if xeq(config_view(gn), views[0]) else ['options'])
+                        views.append(config_view(gn))
+                    except Exception as e:  # noqa
+                        probs = ['raised ' + type(e).__name__]
+                    if probs:
+                        ctx.fail_input('copulas.utils.get_instance', dict(where, clone_number=nth),
+                                       {'problems': probs, 'first_clone': views[0], 'this_clone': views[-1] if len(views) >= nth else None},
+                                       'every clone of a prototype is a new unfitted object configured like the prototype, however '
+                                       'often it is cloned', 'get_instance:repeated-clone-loses-options')
+                        bad = bad or dict(where, clone_number=nth, problems=probs)
+                        break
+                if _args_record((getattr(proto, '__args__', None), getattr(proto, '__kwargs__', None))) != rec0:
+                    ctx.fail_input('copulas.utils.get_instance', where, {'before': str(rec0)[:200],
+                                   'after': str(_args_record((getattr(proto, '__args__', None), getattr(proto, '__kwargs__', None))))[:200]},
+                                   'cloning does not change the prototype (its recorded __args__/__kwargs__ stay what they were)',
+                                   'get_instance:cloning-consumes-prototype-record')
+                    bad = bad or dict(where, prototype_record_changed=True)
                 key = 'get_instance:falsy-option-lost' if falsy_given else 'get_instance:options-not-reproduced'
                 vg, vl = config_view(g), config_view(like)
                 config_lost = not xeq(vg, vl)          # exact: same value, same type, every stored option
@@ -1742,21 +1864,30 @@ def check_clone_indirect(ctx):
     cases = [(TG, {'minimum': 0, 'maximum': 12}, (1.0, 11.0)), (TG, {'maximum': 0}, (-9.0, -1.0)), (TG, {'minimum': 0.0}, (1.0, 11.0)),
              (TG, {'minimum': -50.0, 'maximum': 90.0}, (1.0, 11.0)),
              (TG, {'minimum': 0.1, 'maximum': 0.9}, (0.15, 0.85)), (TG, {'minimum': 1 / 3, 'maximum': 12345.678901234}, (1.0, 11.0)),
-             (KDE, {'bw_method': 0.3}, (1.0, 11.0)), (KDE, {'bw_method': 0.7}, (1.0, 11.0))]      # no sample_size here: a resampling fit draws from the stream GM.fit shares across columns
-    for PC, kw, (lo, hi) in cases:
+             (KDE, {'bw_method': 0.3}, (1.0, 11.0)), (KDE, {'bw_method': 0.7}, (1.0, 11.0)),
+             # POSITIONAL construction: the library clones one prototype once per column / twice per candidate
+             (TG, {'__pos__': (0.0, 12.0)}, (1.0, 11.0)), (TG, {'__pos__': (-3.5,), 'maximum': 40.0}, (1.0, 11.0)),
+             (KDE, {'__pos__': (None, None, 'silverman')}, (1.0, 11.0))]      # no sample_size here: a resampling fit draws from the stream GM.fit shares across columns
+    for PC0, kw0, (lo, hi) in cases:
+        pos = tuple(kw0.get('__pos__', ()))
+        kw = {k: v for k, v in kw0.items() if k != '__pos__'}
+        PC = PC0
+
+        def build(PC=PC, pos=pos, kw=kw):
+            return PC(*copy.deepcopy(pos), **copy.deepcopy(kw))
         rs = np.random.RandomState(41)
         frame = pd.DataFrame({'a': rs.uniform(lo, hi, 40), 'b': rs.uniform(lo, hi, 40)})
         direct = {}
         for c in frame:
-            d = PC(**kw)
+            d = build()
             _quiet(fit_pinned, d, frame[c], 7)      # a Series, as GaussianMultivariate passes it (Series.std is ddof=1)
             direct[c] = observe(d)
         routes = {
-            'GaussianMultivariate(distribution=<instance>)': lambda: GaussianMultivariate(distribution=PC(**kw)),
+            'GaussianMultivariate(distribution=<instance>)': lambda: GaussianMultivariate(distribution=build()),
             'GaussianMultivariate(distribution={col: <instance>})':
-                lambda: GaussianMultivariate(distribution={c: PC(**kw) for c in frame}),
+                lambda: GaussianMultivariate(distribution={c: build() for c in frame}),
             'GaussianMultivariate(distribution=Univariate(candidates=[<instance>]))':
-                lambda: GaussianMultivariate(distribution=U.Univariate(candidates=[PC(**kw)])),
+                lambda: GaussianMultivariate(distribution=U.Univariate(candidates=[build()])),
         }
         for label, mk in routes.items():
             try:
@@ -1765,7 +1896,7 @@ def check_clone_indirect(ctx):
             except Exception:  # noqa
                 ctx.count('clone-indirect:fit-raised')
                 continue
-            ctx.case(('clone-indirect', label, PC.__name__, repr(kw)))
+            ctx.case(('clone-indirect', label, PC.__name__, repr(pos), repr(kw)))
             ctx.count('clone-indirect:compared')
             for c, uni in zip(gm.columns, gm.univariates):
                 got = observe(uni)
@@ -1777,12 +1908,14 @@ def check_clone_indirect(ctx):
                 dd = obs_xdiff(got, direct[c])       # same code, same data, same options: bit for bit
                 if dd:
                     falsy = sorted(k for k, v in kw.items() if not v)
-                    want = config_view(PC(**kw))
+                    want = config_view(build())
                     close = all(config_view(uni).get(k) is not None and feq(want[k], config_view(uni).get(k), rtol=1e-3)
                                 for k in want if want[k] is not None)
                     key = 'get_instance:falsy-option-lost' if falsy and not obs_equal(got, direct[c]) and not close else \
-                        'get_instance:option-value-altered' if close else 'get_instance:options-not-reproduced'
-                    ctx.fail_input('copulas.utils.get_instance', {'route': label, 'marginal': f'{PC.__name__}(**{kw})', 'column': c,
+                        'get_instance:option-value-altered' if close else \
+                        'get_instance:repeated-clone-loses-options' if pos and c != list(gm.columns)[0] else \
+                        'get_instance:options-not-reproduced'
+                    ctx.fail_input('copulas.utils.get_instance', {'route': label, 'marginal': f'{PC.__name__}(*{pos}, **{kw})', 'column': c,
                                                                    'data': f'uniform({lo},{hi}) n=40 seed=41'},
                                    {'differs': dd, 'marginal_in_model': _brief(got), 'options_in_model': config_view(uni),
                                     'options_given': want, 'directly_fitted': _brief(direct[c])},
@@ -1922,6 +2055,7 @@ def _run_rest(ctx, lean, flags):
     if r is not None:
         ctx.ob('oracle:refit-wrapper', not r[0] and r[2] >= 8, 'tie',
                {'findings': r[0], 'histories': r[1], 'histories_where_the_winning_family_changes': r[2]})
+    _phase(ctx, 'check_fitted_answers', check_fitted_answers, ctx)
     r = _phase(ctx, 'oracle_fallback_refit', oracle_fallback_refit, ctx, ctx.rng('fallback-run'))
     if r is not None:
         ctx.ob('oracle:fallback-then-refit', not r[0], 'tie', {'findings': r[0], 'histories': r[1]})
@@ -1967,6 +2101,8 @@ def replay(ctx, payload):
         import copulas.univariate as U
         cls = getattr(U, inp['class'])
         refit_oracle(ctx, cls, inp.get('ctor_raw', {}), inp['history'], inp['seed0'])
+    elif cls_key == K_BFIT:
+        check_fitted_answers(ctx)
     elif cls_key in (K_FBK, K_MUT):
         oracle_fallback_refit(ctx, ctx.rng('fallback-run'))
     elif cls_key == K_SSS:
